@@ -246,6 +246,24 @@ theorem events_performed_in_the_timeline (W : World) (hW : NoActions W) (hP : Po
   obtain ⟨iu, _⟩ := alone_life hF hL (frameOf tl) hact t hinv n u htu
   exact ⟨L, by rw [iu.sid]; exact hL, iu.le, iu.fin⟩
 
+/-- **"… and never when stop-when-done is off", over whole runs and through the documented keyword.**
+    `Timeline.run(stop_when_done=False)` applies the setting before the clock starts — the model's `setStopWhenDone false`
+    (the harness drives the real `run()` keyword and the attribute alternately against this op) — whatever the setting was
+    before (an earlier `run(stop_when_done=True)`); from then on NO tick of the run raises `StopIteration`, however many
+    ticks follow and whether or not a track is left. -/
+theorem run_keyword_off_never_stops (W : World) (hW : NoActions W) (hP : PosDur W) (tl : TL)
+    (hnd : (tl.tracks.map Track.id).Nodup) (hmode : tl.tolerant = true ∨ Faultless W) (n : Nat) :
+    (applyOp tl (.setStopWhenDone false)).tl.stopWhenDone = false ∧
+    (tickTL W (ticks W n (applyOp tl (.setStopWhenDone false)).tl)).res = .ok := by
+  refine ⟨rfl, ?_⟩
+  exact (run_is_merge W hW hP (applyOp tl (.setStopWhenDone false)).tl (by simpa [applyOp] using hnd)
+    (by simpa [applyOp] using hmode) rfl n).2.2
+
+/-- … while `run(stop_when_done=True)` switches it on and `run()` leaves it as it is (no op). -/
+theorem run_keyword_on (tl : TL) : (applyOp tl (.setStopWhenDone true)).tl.stopWhenDone = true ∧
+    (applyOp tl (.setStopWhenDone true)).tl.tracks = tl.tracks ∧ (applyOp tl (.setStopWhenDone true)).tl.now = tl.now := by
+  simp [applyOp]
+
 /-! Non-vacuity: a three-event stream, limits 0 (none), 2 and 5. -/
 section Example
 def exW : World := fun _ pos =>
